@@ -372,8 +372,17 @@ def run_case(case):
     try:
         o = prog.build(p, dialect=d)
     except Exception as e:
-        res.extra["disabled_programs"] = 1
-        res.extra.setdefault("disabled_kinds", set()).add(type(e).__name__)
+        specific = {"returning": ("postgresql",), "fetch_next": ("mssql",), "top": ("mssql",)}
+        calls = {c[0] for c in p["calls"]}
+        bare_list_row = any(c[0] == "insert" and c[1] and c[1][0][0] == "raw" and isinstance(c[1][0][1], list) and c[1][0][1][:1] == ["$list"]
+                            for c in p["calls"])  # insert(<list>, ...): a bare list in first place is a row, not a value
+        if bare_list_row or any(k in calls and d not in ds for k, ds in specific.items()):
+            res.extra["disabled_programs"] = 1  # a call that only another dialect's builder has
+            res.extra.setdefault("disabled_kinds", set()).add(type(e).__name__)
+            return res
+        res.nontrivial = 1
+        res.violate("C04|%s|build-raises|%s" % (d, type(e).__name__), "a valid program of the menu was rejected while it was built",
+                    program=p, dialect=d, error=str(e)[:200])
         return res
     lexd = "sqlite" if d == "generic" else d
     try:
